@@ -159,6 +159,51 @@ def oracle(ctx, seeds=None):
                 res.fail('sw/%s:no-definition' % nm, 'registered variable without a stated definition', dict(model='sw', name=nm)); continue
             if v.shape != (n,) or abs(v[0] - dsw[nm]) > 1e-9 * (abs(dsw[nm]) + 1e-6 * np.sqrt(gsw * h) * max(h, 1)):
                 res.fail('sw/%s:definition' % nm, "%r vs %r" % (v[0] if v.size else None, dsw[nm]), dict(model='sw', name=nm, h=h, u=us))
+    # ---- observing a field does not change it: every named variable queried through the field (phydata, stats, average ...) on
+    #      non-uniform data, then the stored state and every variable again ("named variables equal their definition" whatever was
+    #      asked before)
+    for i in range(ctx.n(6, 40)):
+        g = gens.gamma(rng); n = int(rng.integers(2, 6))
+        which = ['euler1d', 'sw', 'euler2d', 'nozzle', 'conv', 'burgers'][i % 6]
+        r = 10.0 ** rng.uniform(-0.5, 0.5, n); u = rng.uniform(-1.5, 1.5, n); p = 10.0 ** rng.uniform(-0.5, 0.5, n)
+        if which == 'euler2d':
+            import cfg2d
+            m = impl.pool('euler2d', gamma=g); msh = impl.mesh2d.mesh2d(n, 1, 1.0, 1.0); W = [r, np.vstack([u, 0.3 * u]), p]
+        elif which == 'sw':
+            m = impl.pool('sw', g=9.81); msh = impl.mesh.unimesh(ncell=n, length=1.0); W = [r, u]
+        elif which == 'nozzle':
+            m = impl.euler.nozzle(lambda x: 1.0 + 0.3 * x, gamma=g); msh = impl.mesh.unimesh(ncell=n, length=1.0); impl.guarded(m.initdisc, msh); W = [r, u, p]
+        elif which == 'conv':
+            m = impl.convection.model(1.5); msh = impl.mesh.unimesh(ncell=n, length=1.0); W = [u]
+        elif which == 'burgers':
+            m = impl.burgers.model(); msh = impl.mesh.unimesh(ncell=n, length=1.0); W = [u]
+        else:
+            m = impl.pool('euler1d', gamma=g); msh = impl.mesh.unimesh(ncell=n, length=1.0); W = [r, u, p]
+        def run():
+            f = impl.field.fdata(m, msh, [np.array(x, dtype=float) for x in m.prim2cons([np.array(w, dtype=float) for w in W])])
+            keep = [np.array(d, dtype=float).copy() for d in f.data]
+            names = sorted(m.list_var())
+            before = {nm: np.array(f.phydata(nm), dtype=float).copy() for nm in names}
+            for nm in names:
+                f.phydata(nm)
+                for obs in ('stats', 'average'):          # (vector-valued variables have no volume average in 2D: the observers may refuse)
+                    try:
+                        getattr(f, obs)(nm)
+                    except Exception:
+                        pass
+            after = {nm: np.array(f.phydata(nm), dtype=float).copy() for nm in names}
+            return keep, [np.array(d, dtype=float).copy() for d in f.data], before, after
+        ok, out = impl.guarded(run)
+        res.case(('observing-a-field', which))
+        rp = dict(kind='observing-a-field', model=which, W=[np.asarray(w).tolist() for w in W], gamma=g)
+        if not ok:
+            res.fail(which + ':observing-raised', out, rp); continue
+        keep, now, before, after = out
+        if not all(np.array_equal(a_, b_) for a_, b_ in zip(keep, now)):
+            res.fail(which + ':field-modified-by-a-query', "the stored conservative data changed after stats()/phydata()/average() of every named variable", rp); continue
+        bad = [nm for nm in before if not np.array_equal(before[nm], after[nm], equal_nan=True)]
+        if bad:
+            res.fail(which + ':variable-changes-when-asked-again', "named variables %r differ between the first and a later query of the same field" % bad, rp)
     return res
 
 
